@@ -38,19 +38,22 @@ CBMC_FLAGS = ['--unwinding-assertions', '--pointer-overflow-check', '--undefined
 
 class Unit:
     """a shim translation unit plus the repo TUs it links"""
-    def __init__(self, name, shim=None, repo_tus=(), flags=(), includes=(), description=''):
+    def __init__(self, name, shim=None, repo_tus=(), flags=(), includes=(), description='', resumable=(), clang_flags=(), yield_filter=None):
         self.name = name
         self.shim = shim or ('shims/%s.cpp' % name)
         self.repo_tus = list(repo_tus)
         self.flags = list(flags)
         self.includes = list(includes)
         self.description = description
+        self.clang_flags = list(clang_flags)   # flags for the IR build only (e.g. -mllvm -inline-threshold=N)
+        self.yield_filter = yield_filter   # regex on 'ctype:address expression'; only matching accesses are scheduling points
+        self.resumable = list(resumable)   # regexes of generated-C function names that also get a resumable rendering (interleaving harnesses)
 
 
 class Harness:
     def __init__(self, name, unit, src, cases, unwind=8, unwindset=(), timeout=300, mem_gb=16, object_bits=10,
                  flags=(), cbmc_flags=(), diff_iters=300, diff_cases=4, description='', bounds='', sat=None,
-                 extra_c=()):
+                 extra_c=(), gen_only=False):
         self.name = name; self.unit = unit; self.src = src
         self._cases = cases            # list of dicts or callable(tier) -> list of dicts
         self.unwind = unwind; self.unwindset = list(unwindset)
@@ -59,6 +62,9 @@ class Harness:
         self.diff_iters = diff_iters; self.diff_cases = diff_cases
         self.description = description; self.bounds = bounds; self.sat = sat
         self.extra_c = list(extra_c)
+        # gen_only: the harness drives the resumable rendering (NAME__step), which exists only in the generated C; replay then
+        # runs on the natively compiled generated C (itself validated against the real build by the unit's sequential harnesses)
+        self.gen_only = gen_only
 
     def cases(self, tier):
         c = self._cases(tier) if callable(self._cases) else self._cases
@@ -74,27 +80,49 @@ class Property:
 
 
 # ------------------------------------------------------------------------------------------------ helpers
-def run(cmd, cwd=None, timeout=None, mem_gb=None, env=None, stdin=None):
+_libc = None
+def _pdeathsig():
+    # children die with the driver (a killed ./check must not leave solver processes behind)
+    global _libc
+    try:
+        import ctypes
+        if _libc is None: _libc = ctypes.CDLL('libc.so.6', use_errno=True)
+        _libc.prctl(1, 9)      # PR_SET_PDEATHSIG, SIGKILL
+    except Exception:
+        pass
+
+
+def run(cmd, cwd=None, timeout=None, mem_gb=None, env=None, stdin=None, rusage=False):
+    """returns (rc | 'timeout' | 'oserror', output, wall seconds[, peak rss kB of the child if rusage])"""
+    import tempfile, threading
     def limits():
         if mem_gb:
             b = int(mem_gb * (1 << 30))
             resource.setrlimit(resource.RLIMIT_AS, (b, b))
         os.setsid()
+        _pdeathsig()
     t0 = time.time()
+    tf = tempfile.TemporaryFile()
     try:
-        p = subprocess.Popen(cmd, cwd=cwd, stdout=subprocess.PIPE, stderr=subprocess.STDOUT, env=env,
-                             preexec_fn=limits, stdin=subprocess.DEVNULL)
-        try:
-            out, _ = p.communicate(timeout=timeout)
-            rc = p.returncode
-        except subprocess.TimeoutExpired:
-            try: os.killpg(p.pid, 9)
-            except Exception: pass
-            out, _ = p.communicate()
-            rc = 'timeout'
+        p = subprocess.Popen(cmd, cwd=cwd, stdout=tf, stderr=subprocess.STDOUT, env=env, preexec_fn=limits, stdin=subprocess.DEVNULL)
     except OSError as e:
-        return 'oserror', str(e), 0.0
-    return rc, out.decode('utf-8', 'replace'), time.time() - t0
+        return ('oserror', str(e), 0.0, 0) if rusage else ('oserror', str(e), 0.0)
+    timed_out = []
+    def kill():
+        timed_out.append(1)
+        try: os.killpg(p.pid, 9)
+        except Exception: pass
+    timer = threading.Timer(timeout, kill) if timeout else None
+    if timer: timer.start()
+    try:
+        _, status, ru = os.wait4(p.pid, 0)
+    finally:
+        if timer: timer.cancel()
+    p.returncode = os.waitstatus_to_exitcode(status)
+    tf.seek(0); out = tf.read().decode('utf-8', 'replace'); tf.close()
+    rc = 'timeout' if timed_out else p.returncode
+    dt = time.time() - t0
+    return (rc, out, dt, ru.ru_maxrss) if rusage else (rc, out, dt)
 
 
 def sh(cmd, **kw):
@@ -134,21 +162,21 @@ def build_unit(unit, work):
     for i, s in enumerate(srcs):
         ll = os.path.join(d, 'tu%d.ll' % i); o = os.path.join(d, 'tu%d.o' % i)
         lls.append(ll); objs.append(o)
-        jobs.append(CLANG_IR + unit.flags + inc + [s, '-o', ll])
+        jobs.append(CLANG_IR + unit.flags + unit.clang_flags + inc + [s, '-o', ll])
         jobs.append(GXX_REAL + unit.flags + inc + ['-c', s, '-o', o])
     with ThreadPoolExecutor(max_workers=min(NPROC, len(jobs))) as ex:
         for f in [ex.submit(sh, j) for j in jobs]:
             f.result()
     linked = os.path.join(d, 'linked.ll')
     if len(lls) > 1:
-        sh(['llvm-link-14', '-S'] + lls + ['-o', linked])
+        sh(['llvm-link-14', '-S', '-non-global-value-max-name-size=65536'] + lls + ['-o', linked])
     else:
         shutil.copy(lls[0], linked)
     opt = os.path.join(d, 'unit.ll')
-    sh(['opt-14', '-S', '-O1', '-vectorize-loops=false', '-vectorize-slp=false', '-unroll-threshold=0', linked, '-o', opt])
+    sh(['opt-14', '-S', '-O1', '-non-global-value-max-name-size=65536', '-vectorize-loops=false', '-vectorize-slp=false', '-unroll-threshold=0', linked, '-o', opt])
     text = open(opt).read()
     try:
-        ctext, info = ll2c.translate(text)
+        ctext, info = ll2c.translate(text, resumable=unit.resumable, yield_filter=unit.yield_filter)
     except Exception as e:
         raise BuildError('ll2c failed on unit %s: %s\n%s' % (unit.name, e, traceback.format_exc()[-1500:]))
     cpath = os.path.join(d, 'unit.c')
@@ -201,7 +229,8 @@ def classify(name, desc):
 
 
 def defs(params):
-    return ['-D%s=%s' % (k, v) for k, v in sorted(params.items())]
+    # keys starting with '_' are driver options of the case (e.g. _unwind), not harness parameters
+    return ['-D%s=%s' % (k, v) for k, v in sorted(params.items()) if not k.startswith('_')]
 
 
 def case_key(params):
@@ -220,19 +249,17 @@ def run_case(h, built, work, params, kfmodes, tag, trace=False, no_witness=False
     rc, out, dt0 = run(cc, timeout=600)
     if rc != 0:
         return {'status': 'error', 'detail': 'goto-cc failed: ' + out[-3000:], 'params': params, 'wall': dt0, 'rss_kb': 0}
-    cmd = ['cbmc', gb, '--function', 'harness', '--unwind', str(h.unwind), '--object-bits', str(h.object_bits)] + CBMC_FLAGS + h.cbmc_flags
-    if h.unwindset:
-        cmd += ['--unwindset', ','.join(h.unwindset)]
+    cmd = ['cbmc', gb, '--function', 'harness', '--unwind', str(params.get('_unwind', h.unwind)), '--object-bits', str(h.object_bits)] + CBMC_FLAGS + h.cbmc_flags
+    uws = list(h.unwindset) + ([params['_unwindset']] if params.get('_unwindset') else [])
+    if uws:
+        cmd += ['--unwindset', ','.join(uws)]
     if h.sat:
         cmd += h.sat
     if trace:
         cmd += ['--trace', '--stop-on-fail']
-    rc, out, dt = run(['/usr/bin/time', '-f', 'VFRSS %M'] + cmd, timeout=h.timeout, mem_gb=h.mem_gb)
+    rc, out, dt, rss = run(cmd, timeout=h.timeout, mem_gb=h.mem_gb, rusage=True)
     try: os.unlink(gb)
     except OSError: pass
-    rss = 0
-    m = re.search(r'VFRSS (\d+)', out)
-    if m: rss = int(m.group(1))
     r = {'params': params, 'wall': dt + dt0, 'rss_kb': rss, 'out': out if trace else None}
     if rc == 'timeout':
         r['status'] = 'timeout'; r['detail'] = 'cbmc exceeded %ds' % h.timeout; return r
@@ -277,6 +304,9 @@ def build_native(h, built, work):
     j1 = ['clang-14', '-O1', '-w', '-fwrapv', '-fno-strict-aliasing'] + inc + h.flags + [built.c, hs, rt] + extra + ['-o', gen]
     ho = os.path.join(d, 'h.o'); ro = os.path.join(d, 'rt.o')
     eo = [os.path.join(d, 'e%d.o' % i) for i in range(len(extra))]
+    if h.gen_only:
+        sh(['clang-14', '-g', '-O1', '-w', '-fwrapv', '-fno-strict-aliasing', '-fsanitize=address,undefined', '-fno-sanitize-recover=undefined'] + inc + h.flags + [built.c, hs, rt] + extra + ['-o', gen])
+        return gen, gen
     def real_build():
         sh(['gcc', '-g', '-O1', '-w', '-fsanitize=address,undefined', '-fno-sanitize-recover=undefined', '-DVF_REAL'] + inc + h.flags + ['-c', hs, '-o', ho])
         sh(['gcc', '-g', '-O1', '-w', '-DVF_REAL'] + inc + ['-c', rt, '-o', ro])
@@ -294,11 +324,13 @@ NATIVE_ENV = dict(os.environ, ASAN_OPTIONS='exitcode=42:detect_leaks=0:abort_on_
 
 def diff_run(h, gen, real, cases, kfmodes, seed):
     """differential run of generated C against the real build; returns (n_iter, n_skip, mismatches[list])"""
+    if h.gen_only:
+        return 0, 0, 0, []
     rnd = random.Random(seed)
     pick = cases if len(cases) <= h.diff_cases else rnd.sample(cases, h.diff_cases)
     total = 0; skipped = 0; mism = []; crashes = 0
     def one(params):
-        args = ['diff', str(seed), str(h.diff_iters)] + ['%s=%s' % kv for kv in params.items()] + ['KF_%s=%s' % kv for kv in kfmodes.items()]
+        args = ['diff', str(seed), str(h.diff_iters)] + ['%s=%s' % kv for kv in params.items() if not kv[0].startswith('_')] + ['KF_%s=%s' % kv for kv in kfmodes.items()]
         rc1, o1, _ = run([gen] + args, timeout=300, env=NATIVE_ENV)
         rc2, o2, _ = run([real] + args, timeout=600, env=NATIVE_ENV)
         return params, rc1, o1, rc2, o2
@@ -321,7 +353,8 @@ def diff_run(h, gen, real, cases, kfmodes, seed):
 def write_replay(prop_id, h, params, kfmodes, inputs, what):
     os.makedirs(os.path.join(VERIF, 'replays'), exist_ok=True)
     body = ['# property %s harness %s' % (prop_id, h.name), '# violated: %s' % what.replace('\n', ' ')]
-    for k, v in sorted(params.items()): body.append('case %s %s' % (k, v))
+    for k, v in sorted(params.items()):
+        if not k.startswith('_'): body.append('case %s %s' % (k, v))
     for k, v in sorted(kfmodes.items()): body.append('case KF_%s %s' % (k, v))
     for v in inputs: body.append('in %d' % v)
     text = '\n'.join(body) + '\n'
@@ -397,6 +430,9 @@ def check_property(prop, tier, seed, replay_path=None, only=None, keep=False, ve
                 cf = {cx.submit(run_case, h, built_units[h.unit.name], work, params, modes, tag): (h, params, modes, tag) for h, params, modes, tag in jobs}
                 for f in as_completed(cf):
                     results.append((cf[f], f.result()))
+                    if os.environ.get('VF_VERBOSE'):
+                        hh, pp, _, tg = cf[f]; rr = f.result()
+                        log('   case %s[%s] %s: %s %.1fs %dMB' % (hh.name, case_key(pp), tg, rr['status'], rr['wall'], rr['rss_kb'] // 1024))
             for f in as_completed(futs):
                 natives[futs[f].name] = f.result()
 
